@@ -1492,20 +1492,29 @@ class Interp:
     _store_cache = {}
 
     def _has_instance_store(self, c, attr):
-        key = (id(self.prog), c.qualname, attr)
+        """Is an attribute of that name stored (or mutated in place) anywhere
+        in the package?  Coarse (any object, any function) but sound: a
+        class-level constant may be folded through an instance only when
+        nobody can have replaced it."""
+        key = (id(self.prog), attr)
         if key in Interp._store_cache:
             return Interp._store_cache[key]
         found = False
-        for k in self.prog.all_classes.values():
-            if c not in self.prog.mro(k) and k not in self.prog.mro(c):
+        for f in self.prog.all_funcs.values():
+            if f.parent is not None:
                 continue
-            for f in k.methods.values():
-                for node in ast.walk(f.node):
-                    if isinstance(node, ast.Attribute) and node.attr == attr \
-                            and isinstance(node.ctx, (ast.Store, ast.Del)):
-                        found = True
-                    if _mutates_attr(node, attr):
-                        found = True
+            for node in ast.walk(f.node):
+                if isinstance(node, ast.Attribute) and node.attr == attr \
+                        and isinstance(node.ctx, (ast.Store, ast.Del)):
+                    found = True
+                if _mutates_attr(node, attr):
+                    found = True
+                if isinstance(node, ast.Call) and \
+                        isinstance(node.func, ast.Name) and \
+                        node.func.id == 'setattr' and len(node.args) == 3 \
+                        and isinstance(node.args[1], ast.Constant) and \
+                        node.args[1].value == attr:
+                    found = True
         Interp._store_cache[key] = found
         return found
 
